@@ -2239,3 +2239,61 @@ def derived_table_rule(ctx, res, rule: str, modules) -> None:
     res.add(rule, "classes|derived-tables-follow-their-source", not stale, modules[0].replace(".", "/") + ".py:1",
             f"{n_cls} classes: {n} change(s) of a table that another table of the object is derived from, " + (f"{stale} leave the derived entry in place" if stale else "all drop the derived entry"),
             modules=list(modules))
+
+
+# ---------------------------------------------------------------------------------------------------------------------
+# a forward scan by index stops at the end of what it scans
+
+def _unbounded_forward_scans(tree: ast.AST):
+    """while loops whose test reads `<seq>[<i>]` for a name i that the loop increments, without comparing i with len(...) in the test"""
+    out = []
+    for w in ast.walk(tree):
+        if not isinstance(w, ast.While):
+            continue
+        for c in ast.walk(w.test):
+            if not (isinstance(c, ast.Subscript) and isinstance(c.slice, ast.Name) and isinstance(c.ctx, ast.Load)):
+                continue
+            i = c.slice.id
+            inc = any(isinstance(x, ast.AugAssign) and isinstance(x.target, ast.Name) and x.target.id == i and isinstance(x.op, ast.Add) for st in w.body for x in ast.walk(st))
+            bounded = any(isinstance(k, ast.Compare) and any(isinstance(y, ast.Name) and y.id == i for y in ast.walk(k))
+                          and any(isinstance(y, ast.Call) and call_name(y) == "len" for y in ast.walk(k)) for k in ast.walk(w.test))
+            if inc and not bounded:
+                out.append((w, c))
+                break
+    return out
+
+
+# confirmed by reading: one named function, one reason
+_SCAN_HAS_A_SENTINEL = {
+    "rope.refactor.sourceutils.get_body_region": "skips the blanks between the colon of a one-line `def f(): stmt` and the statement, which the grammar guarantees to follow",
+}
+
+
+def bounded_scan_rule(ctx, res, rule: str, prefix: str = "rope.") -> None:
+    """A request at ANY offset of a valid module is answered or refused with one of rope's errors.  The scanners that walk forward
+    through a text by an index they increment (`while text[i] == ".": i += 1`) read one position past the end when the text
+    consists of nothing else (`from . import name`: the module name is "."): IndexError.  In every such loop the test compares
+    the index with the length of what is scanned.  (Expected count on the repaired tree: none without the bound; the detector is
+    checked on a fixed example at every run.)"""
+    idx = ctx.idx
+    probe = ast.parse("def f(s):\n    i = 0\n    while s[i] == '.':\n        i += 1\n    j = 0\n    while j < len(s) and s[j] == '.':\n        j += 1\n    return i, j\n")
+    if [ast.unparse(c) for _, c in _unbounded_forward_scans(probe)] != ["s[i]"]:
+        raise AnalysisError("bounded-scan detector self-check failed")
+    n = n_loops = 0
+    for u in sorted(idx.units.values(), key=lambda u: u.modname):
+        if not u.modname.startswith(prefix):
+            continue
+        n_loops += sum(1 for w in ast.walk(u.tree) if isinstance(w, ast.While))
+        for w, c in _unbounded_forward_scans(u.tree):
+            fn = next((f for f in idx.functions.values() if f.unit is u and f.parent is None and f.node.lineno <= w.lineno <= (f.node.end_lineno or w.lineno)), None)
+            name = fn.qualname.split(".", 2)[-1] if fn else u.modname
+            if fn is not None and fn.qualname in _SCAN_HAS_A_SENTINEL:
+                res.add(rule, f"{name}|forward-scan-ends-at-a-sentinel", True, f"{u.rel}:{w.lineno}", "scan without a bound, accepted: " + _SCAN_HAS_A_SENTINEL[fn.qualname], function=fn.qualname)
+                continue
+            n += 1
+            res.fail(rule, f"{name}|forward-scan-stops-at-the-end#{n}", f"{u.rel}:{w.lineno}",
+                     f"`while {ast.unparse(w.test)[:70]}` steps `{c.slice.id}` forward and reads `{ast.unparse(c)}` without comparing the index with the length: when what is scanned "
+                     "consists of nothing but the characters skipped (`from . import name`: the module name is '.') the read after the last one raises IndexError -- completion, "
+                     "go-to-definition or a refactoring at that offset ends in an internal error instead of an answer or a refusal", function=fn.qualname if fn else None)
+    res.analysed[f"{rule}:while loops scanned"] = n_loops
+    res.add(rule, "forward-scans|bounded-by-the-length", n == 0, "rope/", f"{n_loops} while loops: " + (f"{n} forward scan(s) by index without a bound" if n else "every forward scan by index compares the index with the length"))
